@@ -1017,10 +1017,11 @@ func builderRows(sa *sliceAnalysis) []string {
 			if fn != "BuildArray" && fn != "BuildHash" && fn != "types.BuildArray" && fn != "types.BuildHash" {
 				return true
 			}
-			idiom := ".unknown " + leanStr(strings.Join(strings.Fields(src(call)), " "))
-			if len(idiom) > 200 {
-				idiom = idiom[:195] + " …\""
+			raw := strings.Join(strings.Fields(src(call)), " ")
+			if len(raw) > 160 {
+				raw = raw[:160] + " …"
 			}
+			idiom := ".unknown " + leanStr(raw)
 			if len(call.Args) == 2 {
 				if fl, ok := call.Args[1].(*ast.FuncLit); ok && len(fl.Type.Params.List) == 2 && len(fl.Type.Params.List[1].Names) == 1 {
 					idiom = classifyBuilder(fl, fl.Type.Params.List[1].Names[0].Name, idiom)
